@@ -211,6 +211,59 @@ def rules_pairing(ctx, F):
             ctx.bad("P4", "ts_parser__reduce:push-anchor", "push of the reduced parent not found")
 
 
+def rules_gate_state(ctx, F):
+    """P5: the state the reuse gates *read* is maintained wherever the walk / the stack moves."""
+    fn = ctx.need_fn(F, "reusable_node_advance")
+    if fn:
+        st = [pt for pt, n in find(fn, "self->last_external_token = ts_subtree_last_external_token(_.tree)")]
+        ctx.established_at_exit("P5", "reusable_node_advance:tracks-external-token", fn, st, [("ts_subtree_has_external_tokens(_.tree)", False)],
+                                "leaving a subtree that contains external tokens records its last external token")
+        ids = fn.ids_named("byte_offset")
+        d = fn.single_def(ids[0]) if ids else None
+        ok = d is not None and M(fn).match("_.byte_offset + ts_subtree_total_bytes(_.tree)", d)
+        pushes = [n for pt, e in fn.points() for n in own_walk(e) if n.get("k") == "init" and n.get("t") == "StackEntry"]
+        ok2 = any(f["f"] == "byte_offset" and strip(f["e"]).get("k") == "ref" and strip(f["e"])["name"] == fn.cur("byte_offset") for n in pushes for f in n["fields"])
+        if ok and ok2:
+            ctx.ok("P5", "reusable_node_advance:offset-accumulates", "the next node's byte offset is the left node's offset plus its total size")
+        else:
+            ctx.bad("P5", "reusable_node_advance:offset-accumulates", "reusable_node_advance no longer computes the next node's offset as offset + total_bytes of the node left behind")
+    fn = ctx.need_fn(F, "reusable_node_descend")
+    if fn:
+        pushes = [n for pt, e in fn.points() for n in own_walk(e) if n.get("k") == "init" and n.get("t") == "StackEntry"]
+        m = M(fn)
+        ok = any(any(f["f"] == "byte_offset" and m.match("_.byte_offset", f["e"]) for f in n["fields"]) and
+                 any(f["f"] == "child_index" and strip(f["e"]).get("v") == 0 for f in n["fields"]) for n in pushes)
+        if ok:
+            ctx.ok("P5", "reusable_node_descend:first-child-same-offset", "descending enters child 0 at the parent's byte offset")
+        else:
+            ctx.bad("P5", "reusable_node_descend:first-child-same-offset", "reusable_node_descend no longer enters child 0 at the parent's byte offset")
+    fn = ctx.need_fn(F, "reusable_node_reset")
+    if fn:
+        clr = [pt for pt, n in find(fn, "reusable_node_clear(self)")]
+        desc = [pt for pt, n in find(fn, "reusable_node_descend(self)")]
+        ctx.on_all_paths("P5", "reusable_node_reset:never-the-root", fn, desc, "the walk starts below the old root (the root itself is never reused)")
+        ctx.before("P5", "reusable_node_reset:clears-first", fn, desc, clr, "state of a previous walk (incl. last_external_token) is cleared first")
+    fn = ctx.need_fn(F, "ts_parser__shift")
+    if fn:
+        st = [pt for pt, n in find(fn, "ts_stack_set_last_external_token(self->stack, version, ts_subtree_last_external_token(_))")]
+        ctx.established_at_exit("P5", "ts_parser__shift:stack-tracks-external-token", fn, st, [("ts_subtree_has_external_tokens(_)", False)],
+                                "shifting a subtree that contains external tokens records its last external token on the stack version")
+    fn = ctx.need_fn(F, "ts_parser__advance")
+    if fn:
+        c = find(fn, "ts_parser__set_cached_token(self, position, last_external_token, lookahead)")
+        if c:
+            ctx.ok("P5", "ts_parser__advance:token-cache-keyed", "a lexed token is cached with the position and external-scanner context it was lexed in")
+        else:
+            ctx.bad("P5", "ts_parser__advance:token-cache-keyed", "the token cache is no longer filled with (position, last_external_token, lookahead)")
+    fn = ctx.need_fn(F, "ts_parser__set_cached_token")
+    if fn:
+        for f, v in (("token", "token"), ("byte_index", "byte_index"), ("last_external_token", "last_external_token")):
+            if find(fn, "(&self->token_cache)->%s = %s" % (f, v)):
+                ctx.ok("P5", "set_cached_token:%s" % f, "cache.%s is stored" % f, nontrivial=False)
+            else:
+                ctx.bad("P5", "set_cached_token:%s" % f, "ts_parser__set_cached_token no longer stores %s" % f)
+
+
 def run(ctx):
     for cfg in configs(ctx):
         ctx.config = cfg
@@ -218,6 +271,7 @@ def run(ctx):
         ctx.analysed["c_functions_" + cfg] = len(F.fn_list)
         rules_c(ctx, F)
         rules_pairing(ctx, F)
+        rules_gate_state(ctx, F)
     import rsrules
     rsrules.c01_rust(ctx)
     return ctx.finish(
